@@ -260,7 +260,12 @@ def run_point(p: Dict[str, Any], verbose: bool = False) -> Tuple[Optional[Dict[s
         if mode in ("unawaited_update", "unawaited_register"):
             t_base = getattr(hurried, "t_unreg", None)
             if t_base is None:
-                raise HarnessError("the withdrawal under test was never reached")
+                exc = task.exception() if task is not None and task.done() and not task.cancelled() else None
+                if exc is None:
+                    raise HarnessError("the withdrawal under test was never reached")
+                # (e.g. the registration that precedes it met its own earlier records coming back after their goodbyes)
+                problems.append(f"resurrection: the API calls before the withdrawal under test raised {type(exc).__name__}: {exc}")
+                t_base = w.now_ms
         trace = decoded_trace(w, host.name, since_ms=t_base - 0.001)
         must = set()
         for s in withdrawn_svcs:
